@@ -1,257 +1,11 @@
-import SlugModel.Generated.Trans
-import SlugModel.Addr
-import SlugModel.Unpack
-/-!
-# Lemmas/TransEq — the hand-written model functions equal the translated Go functions
-
-`Generated/Trans.lean` is written by `harness/cmd/go2lean` from the Go source on every run: each
-definition of `Slug.Gen` is the Go function of the same name in `Id.run do` notation over the
-operations of `GoLib.lean`.  The theorems here say that each of them computes, on every input,
-exactly what the hand-written model function (`Addr.lean`, `Unpack.lean`) computes.  Go's
-`(value, error)` results are read as `(value, true)` for an error (the value then being the zero
-value) and `(value, false)` otherwise; the model's `Option` results are compared through that reading.
-
-If the Go function changes, the translated definition changes and the proof here no longer checks.
--/
-namespace Slug
-
-
-theorem gen_normalizeSubpath (g : Str) :
-    Gen.normalizeSubpath g = (match normalizeSubpath g with | some r => (r, false) | none => ([], true)) := by
-  unfold Gen.normalizeSubpath normalizeSubpath
-  by_cases h1 : g = []
-  · simp [h1, Id.run]; rfl
-  · by_cases h2 : validPath g = true
-    · by_cases h3 : pathClean g = ['.']
-      · simp [h1, h2, h3, Id.run, dot, Go.validPath, Go.pathClean]; rfl
-      · simp [h1, h2, h3, Id.run, dot, Go.validPath, Go.pathClean]; rfl
-    · simp [h1, h2, Id.run, Go.validPath]; rfl
-
-theorem gen_joinSubPath (a b : Str) :
-    Gen.joinSubPath a b = (match joinSubPath a b with | some r => (r, false) | none => ([], true)) := by
-  unfold Gen.joinSubPath joinSubPath
-  by_cases h1 : pathJoin a b = ['.']
-  · simp [h1, Id.run, dot, Go.pathJoin]; rfl
-  · by_cases h2 : validPath (pathJoin a b) = true
-    · simp [h1, h2, Id.run, dot, Go.pathJoin, Go.validPath]; rfl
-    · simp [h1, h2, Id.run, dot, Go.pathJoin, Go.validPath]; rfl
-
-theorem gen_looksLikeLocalSource (s : Str) : Gen.looksLikeLocalSource s = looksLikeLocal s := by
-  unfold Gen.looksLikeLocalSource looksLikeLocal
-  simp [Id.run, Go.hasPrefix]; rfl
-
-theorem gen_isWithin (r p : Str) : Gen.isWithin r p = isWithin r p := by
-  unfold Gen.isWithin isWithin
-  by_cases h1 : p = r
-  · simp [h1, Id.run]; rfl
-  · by_cases h2 : hasSuffix r ['/'] = true
-    · simp [h1, h2, Id.run, Go.hasSuffix, Go.hasPrefix]; rfl
-    · simp [h1, h2, Id.run, Go.hasSuffix, Go.hasPrefix]; rfl
-
-
-set_option hygiene false in
-/-- one iteration of the loop of `allowedSymlinkTarget`, the prefix after the `IsAbs` test being `$pre` -/
-local macro "loop_iter" pre:term : tactic => `(tactic|
-  (by_cases h2 : t = $pre
-   · simp [h2, Id.run]; rfl
-   · by_cases h3 : hasSuffix $pre ['/'] = true
-     · by_cases h4 : hasPrefix t $pre = true
-       · simp [h2, h3, h4, Id.run]; rfl
-       · simp [h2, h3, h4, Id.run]
-     · by_cases h4 : hasPrefix t ($pre ++ ['/']) = true
-       · simp [h2, h3, h4, Id.run]; rfl
-       · simp [h2, h3, h4, Id.run]))
-
-theorem gen_allowedSymlinkTarget (allow : List Str) (r t : Str) :
-    Gen.allowedSymlinkTarget allow r t = allowedTarget allow r t := by
-  unfold Gen.allowedSymlinkTarget allowedTarget
-  induction allow with
-  | nil => simp [Id.run]; rfl
-  | cons a rest ih =>
-    simp only [List.forIn_cons, List.any_cons]
-    simp only [] at ih
-    rw [← ih]
-    simp only [Go.isAbs, Go.hasSuffix, Go.hasPrefix, Go.pathJoin]
-    by_cases h1 : isAbs a = true <;>
-      simp only [h1, Bool.not_true, Bool.not_false, if_true, if_false, Bool.false_eq_true]
-    · loop_iter a
-    · loop_iter (pathJoin r a)
-
-theorem gen_validSymlink (cwd : Str) (allow : List Str) (root path target : Str) :
-    Gen.validSymlink cwd allow root path target =
-      (validSymlink cwd allow root path target, !validSymlink cwd allow root path target) := by
-  unfold Gen.validSymlink validSymlink isWithin
-  simp only [gen_allowedSymlinkTarget, Go.pathAbs, Go.isAbs, Go.pathJoin, Go.pathClean, Go.pathDir,
-    Go.hasSuffix, Go.hasPrefix]
-  generalize pathAbs cwd root = absRoot
-  have key : ∀ absTarget : Str,
-      (if (!hasSuffix absRoot ['/']) = true then
-        if (absTarget == absRoot || hasPrefix absTarget (absRoot ++ ['/'])) = true then
-          (pure (true, false) : Id (Bool × Bool))
-        else if allowedTarget allow absRoot absTarget = true then pure (true, false) else pure (false, true)
-      else
-        if (absTarget == absRoot || hasPrefix absTarget absRoot) = true then pure (true, false)
-        else
-          if allowedTarget allow absRoot absTarget = true then pure (true, false)
-          else pure (false, true)).run =
-      (if (decide (absTarget = absRoot) ||
-              hasPrefix absTarget (if hasSuffix absRoot ['/'] = true then absRoot else absRoot ++ ['/'])) =
-            true then true
-        else allowedTarget allow absRoot absTarget,
-        !if (decide (absTarget = absRoot) ||
-                hasPrefix absTarget (if hasSuffix absRoot ['/'] = true then absRoot else absRoot ++ ['/'])) =
-              true then true
-          else allowedTarget allow absRoot absTarget) := by
-    intro absTarget
-    generalize allowedTarget allow absRoot absTarget = c
-    by_cases h3 : hasSuffix absRoot ['/'] = true <;>
-      simp only [h3, Bool.not_true, Bool.not_false, if_true, if_false, Bool.false_eq_true]
-    · generalize hasPrefix absTarget absRoot = b
-      by_cases h4 : absTarget = absRoot <;> cases b <;> cases c <;> simp [h4, Id.run] <;> rfl
-    · generalize hasPrefix absTarget (absRoot ++ ['/']) = b
-      by_cases h4 : absTarget = absRoot <;> cases b <;> cases c <;> simp [h4, Id.run] <;> rfl
-  by_cases h1 : isAbs path = true <;> by_cases h2 : isAbs target = true <;>
-    simp only [h1, h2, Bool.not_true, Bool.not_false, if_true, if_false, Bool.false_eq_true] <;>
-    exact key _
-
-theorem gen_parseLocalSource (s : Str) :
-    Gen.parseLocalSource s = (match parseLocal s with | some r => (r, false) | none => ([], true)) := by
-  unfold Gen.parseLocalSource parseLocal
-  simp only [gen_looksLikeLocalSource, Go.pathClean, Go.containsAny]
-  have e1 : (fun c : Char => [':', '\\'].contains c) = (fun c => decide (c = ':') || decide (c = '\\')) := by
-    funext c; simp
-  rw [e1]
-  by_cases h1 : (List.any s fun c => decide (c = ':') || decide (c = '\\')) = true
-  · simp [h1, Id.run]; rfl
-  · have e2 : (!looksLikeLocal s && s != ['.'] && s != ['.', '.']) =
-        (!looksLikeLocal s && decide (s ≠ dot) && decide (s ≠ dotdot)) := by
-      have a : (s != ['.']) = decide (s ≠ dot) := by by_cases a : s = ['.'] <;> simp [a, dot]
-      have b : (s != ['.', '.']) = decide (s ≠ dotdot) := by by_cases b : s = ['.', '.'] <;> simp [b, dotdot]
-      rw [a, b]
-    rw [e2]
-    by_cases h2 : (!looksLikeLocal s && decide (s ≠ dot) && decide (s ≠ dotdot)) = true
-    · simp only [h1, h2, if_true]; rfl
-    · simp only [h1, h2, if_false, Bool.false_eq_true]
-      have l1 : looksLikeLocal ['.', '.', '/'] = true := by decide
-      have l2 : looksLikeLocal ['.', '/'] = true := by decide
-      have n1 : (['.'] : Str) ≠ ['.', '.'] := by decide
-      by_cases h3 : pathClean s = ['.', '.']
-      · simp only [h3, l1, dotdot, beq_self_eq_true, if_true, Bool.not_true, Bool.false_eq_true, if_false]
-        by_cases h6 : ['.', '.', '/'] = s
-        · simp [h6, Id.run]; rfl
-        · simp [h6, Id.run]; rfl
-      · by_cases h4 : pathClean s = ['.']
-        · simp only [h4, l2, n1, dot, dotdot, beq_self_eq_true, if_true, Bool.not_true, Bool.false_eq_true,
-            if_false, beq_iff_eq]
-          by_cases h6 : ['.', '/'] = s
-          · simp [h6, Id.run]; rfl
-          · simp [h6, Id.run]; rfl
-        · by_cases h5 : looksLikeLocal (pathClean s) = true
-          · simp only [h3, h4, h5, dot, dotdot, beq_iff_eq, Bool.not_true, Bool.false_eq_true, if_false]
-            by_cases h6 : pathClean s = s
-            · simp [h6, Id.run]; rfl
-            · simp [h6, Id.run]; rfl
-          · simp only [h3, h4, h5, dot, dotdot, beq_iff_eq, if_true, Bool.not_false, if_false]
-            by_cases h6 : '.' :: '/' :: pathClean s = s
-            · simp [h6, Id.run]; rfl
-            · simp [h6, Id.run]; rfl
-
-private theorem neg_one_lt_natCast (n : Nat) : ((-1 : Int) < (n : Int)) = True := by
-  simp only [eq_iff_iff, iff_true]; omega
-
-/-- normal form after one `strings.Index` result has been substituted: the `idx > -1` tests are decided
-and `Int` positions made of natural numbers are read back as natural numbers -/
-local macro "gnorm" : tactic => `(tactic|
-  (try simp only [neg_one_lt_natCast, Int.lt_irrefl, if_true, if_false, decide_true, decide_false,
-      Bool.false_eq_true, Int.toNat_natCast, List.take_length, List.drop_zero, Int.add_zero, Int.zero_add,
-      Int.toNat_zero, beq_self_eq_true, gt_iff_lt]
-   try norm_cast
-   try simp only [Int.toNat_natCast, Nat.add_zero, if_false]))
-
-set_option hygiene false in
-/-- the last two searches of `splitSubPath`: `//` in `$X`, then `?` in `$Y` (which may mention `k`) -/
-local macro "tail34" X:term ", " Y:term : tactic => `(tactic|
-  (rcases h3 : indexOf ['/', '/'] $X with _ | k
-   · simp only [Go.index_none h3]; gnorm; try rfl
-   · simp only [Go.index_some h3]; gnorm
-     rcases h4 : indexOf ['?'] $Y with _ | q
-     · simp only [Go.index_none h4]; gnorm; try rfl
-     · simp only [Go.index_some h4]; gnorm; try rfl))
-
-theorem gen_splitSubPath (s : Str) : Gen.splitSubPath s = splitSubPath s := by
-  unfold Gen.splitSubPath splitSubPath
-  simp only [Id.run, Go.len, Go.sliceTo, Go.slice, Go.sliceFrom]
-  rcases h1 : indexOf ['?'] s with _ | i
-  · simp only [Go.index_none h1]; gnorm
-    rcases h2 : indexOf [':', '/', '/'] s with _ | j
-    · simp only [Go.index_none h2]; gnorm
-      tail34 s, (s.drop (k + 2))
-    · simp only [Go.index_some h2]; gnorm
-      tail34 (s.drop (j + 3)), (s.drop (k + (j + 3) + 2))
-  · simp only [Go.index_some h1]; gnorm
-    rcases h2 : indexOf [':', '/', '/'] (s.take i) with _ | j
-    · simp only [Go.index_none h2]; gnorm
-      tail34 (s.take i), (s.drop (k + 2))
-    · simp only [Go.index_some h2]; gnorm
-      tail34 ((s.take i).drop (j + 3)), (s.drop (k + (j + 3) + 2))
-/-! ## `Ruleset.Excludes` -/
-
-/-- one iteration of the translated loop, as a pure function of the loop state -/
-def exclStep (path : Str) (acc : Bool × Bool × Bool) (rule : Rule) : Bool × Bool × Bool :=
-  if ruleMatches rule path then (acc.1, !rule.negated, !rule.negated && !rule.negAfter) else acc
-
-theorem gen_excludes_loop (path : Str) (rules : List Rule) (acc : Bool × Bool × Bool) :
-    (forIn (m := Id) rules acc fun rule₀ __s =>
-            have retErr := __s.fst;
-            have __s := __s.snd;
-            have foundMatch := __s.fst;
-            have dominating := __s.snd;
-            have rule := rule₀;
-            match Slug.Go.ruleMatch rule path with
-            | (r'_1, r'_2) =>
-              have match' := r'_1;
-              have err := r'_2;
-              have __do_jp := fun (__r : Unit) retErr =>
-                if match' = true then
-                  have foundMatch := !rule.negated;
-                  have dominating := foundMatch && !rule.negAfter;
-                  pure (ForInStep.yield (retErr, foundMatch, dominating))
-                else pure (ForInStep.yield (retErr, foundMatch, dominating));
-              if err = true then
-                if (!retErr) = true then
-                  have retErr := true;
-                  __do_jp () retErr
-                else __do_jp () retErr
-              else __do_jp () retErr) = pure (rules.foldl (exclStep path) acc) := by
-  induction rules generalizing acc with
-  | nil => simp
-  | cons r rs ih =>
-    simp only [List.forIn_cons, List.foldl_cons, Go.ruleMatch]
-    by_cases hm : ruleMatches r path = true
-    · simp [hm, exclStep]
-      exact ih _
-    · simp [hm, exclStep]
-      exact ih _
-
-theorem exclStep_fold (path : Str) (rules : List Rule) (e : Bool) (acc : Bool × Bool) :
-    rules.foldl (exclStep path) (e, acc) =
-      (e, rules.foldl (fun (acc : Bool × Bool) r =>
-        if ruleMatches r path then (!r.negated, !r.negated && !r.negAfter) else acc) acc) := by
-  induction rules generalizing acc with
-  | nil => rfl
-  | cons r rs ih =>
-    simp only [List.foldl_cons, exclStep]
-    by_cases hm : ruleMatches r path = true
-    · simp [hm]; exact ih _
-    · simp [hm]; exact ih _
-
-theorem gen_excludes (rules : List Rule) (path : Str) :
-    Gen.excludes rules path = (excludes rules path, false) := by
-  unfold Gen.excludes
-  simp only [Id.run]
-  have h := gen_excludes_loop path rules (false, false, false)
-  simp only [Bool.false_eq_true, ↓reduceIte] at h ⊢
-  rw [show (forIn (m := Id) rules (false, false, false) _) = _ from h]
-  rw [exclStep_fold]
-  rfl
-end Slug
+import SlugModel.Lemmas.TrEq_normalizeSubpath
+import SlugModel.Lemmas.TrEq_joinSubPath
+import SlugModel.Lemmas.TrEq_looksLikeLocalSource
+import SlugModel.Lemmas.TrEq_isWithin
+import SlugModel.Lemmas.TrEq_allowedSymlinkTarget
+import SlugModel.Lemmas.TrEq_validSymlink
+import SlugModel.Lemmas.TrEq_parseLocalSource
+import SlugModel.Lemmas.TrEq_splitSubPath
+import SlugModel.Lemmas.TrEq_excludes
+/-! All translation equalities (one file per function, so that a function that changes breaks only
+the obligations stated over it). -/
